@@ -3,6 +3,7 @@ package props
 import (
 	"strings"
 	"verif/checker/internal/core"
+	"verif/checker/internal/engb"
 	"verif/checker/internal/fam"
 	"verif/checker/internal/gen"
 )
@@ -86,6 +87,8 @@ func C17(c *core.Ctx) {
 			})
 		}
 	}
+	// both decoders bind by the configured tags: the CLI hands the generator the tag list the user wrote (B-FLAG)
+	emit(c, engb.New(c.Prog).FlagWiring("main.main", "main.init$1", "generator.Config"))
 	c.Floor("families", c.Counts["members"], 300, "family members")
 }
 
